@@ -596,7 +596,23 @@ def s8(ctx, rep, clause="S8"):
             ", ".join(f"{g.short}({k})" for g, n, k in bad))
 
 
+def s9_local_backend_order(ctx, rep, clause="S3"):
+    """LocalBackend._all_trial_results: the status of a job is read BEFORE its output is parsed.  A job that is seen as finished has
+    then written everything it will ever write, so 'completed' is never delivered with the tail of the reports missing (the tuner
+    does not poll a finished trial again)."""
+    from .common import out_of_order, node_calls
+    f = ctx.P.method("LocalBackend", "_all_trial_results")
+    bad, firsts, thens = out_of_order(ctx, f, node_calls("_read_status"), node_calls("retrieve"))
+    if not firsts or not thens:
+        raise AnchorError("LocalBackend._all_trial_results: _read_status / retrieve(...) not found")
+    cfg = cfg_of(f)
+    rep.put(not bad, clause, "must_precede", "LocalBackend._all_trial_results: the job's status is read before its output is parsed", f,
+            cfg.nodes[bad[0][0]].ast if bad else None, "", "the output is parsed first and the status read afterwards: a job that prints its last report and "
+            "exits between the two reads is delivered as finished without that report - the tuner never polls it again, the final result is lost")
+
+
 def run(ctx, rep, tier="quick"):
+    s9_local_backend_order(ctx, rep)
     s1(ctx, rep)
     s2(ctx, rep)
     s3(ctx, rep)
